@@ -110,7 +110,8 @@ func (m *canaryReleaseManager) runCanary(c *RolloutContext) error {
 			This ensures that the backends behind the stable ingress remain active, preventing the bug from being triggered.
 		*/
 		expectedReplicas, _ := intstr.GetScaledValueFromIntOrPercent(currentStep.Replicas, int(c.Workload.Replicas), true)
-		if expectedReplicas >= int(c.Workload.Replicas) && v1beta1.IsRealPartition(c.Rollout) {
+		releaseAllStablePods := expectedReplicas >= int(c.Workload.Replicas) && v1beta1.IsRealPartition(c.Rollout)
+		if releaseAllStablePods {
 			klog.Infof("Bypass the ingress-nginx bug for partition-style, rollout(%s/%s) restore stable Service", c.Rollout.Namespace, c.Rollout.Name)
 			retry, err := m.trafficRoutingManager.RestoreStableService(tr)
 			if err != nil {
@@ -139,7 +140,9 @@ func (m *canaryReleaseManager) runCanary(c *RolloutContext) error {
 			To avoid this issue, we
 			- patch selector to stable Service before CanaryStepStateUpgrade step.
 		*/
-		if canaryStatus.CurrentStepIndex == 1 {
+		// a first step that releases all stable pods must keep the stable Service restored: patching it again
+		// would undo the restore above on every reconcile (and leave the selector without any pod)
+		if canaryStatus.CurrentStepIndex == 1 && !releaseAllStablePods {
 			if !tr.DisableGenerateCanaryService {
 				klog.Infof("Before the first batch, rollout(%s/%s) patch stable Service", c.Rollout.Namespace, c.Rollout.Name)
 				retry, err := m.trafficRoutingManager.PatchStableService(tr)
